@@ -8,10 +8,12 @@ Chunks == UNION {[1..n -> Txs] : n \in 1..MaxChunk}
 
 MCInit == \E i \in Infos, m \in [Sponsors -> Maxes] : Init(i, m)
 MCNext ==
-  \/ \E txs \in Chunks, r \in Rates : BuildChunk(txs, r, Len(txs), FALSE)
-  \/ \E txs \in Chunks, r \in FailRates : BuildChunk(txs, r, Len(txs), TRUE)              \* inner build fails
-  \/ \E txs \in Chunks, r \in FailRates : \E cut \in 0..(Len(txs) - 1) : BuildChunk(txs, r, cut, FALSE)  \* Bond errors
-  \/ \E ts \in Stamps, incl \in SUBSET Txs : Accept(ts, incl)
+  \/ \E txs \in Chunks, r \in Rates : BuildChunk(txs, r, Len(txs), FALSE, 0)
+  \/ \E txs \in Chunks, r \in FailRates : BuildChunk(txs, r, Len(txs), TRUE, 0)              \* inner build fails
+  \/ \E txs \in Chunks, r \in FailRates : \E cut \in 0..(Len(txs) - 1) : BuildChunk(txs, r, cut, FALSE, 0)  \* Bond errors
+  \/ \E txs \in Chunks, r \in FailRates : \E c \in 1..Len(txs) : BuildChunk(txs, r, Len(txs), FALSE, c)   \* crash + retry in Bond
+  \/ \E ts \in Stamps, incl \in SUBSET Txs : Accept(ts, incl, "none")
+  \/ \E ts \in Stamps, c \in Txs : Accept(ts, {}, c) \/ Accept(ts, {c}, c)                     \* crash + retry in Unbond
   \/ \E s \in Sponsors, m \in Maxes : SetMax(s, m)
 MCSpec == MCInit /\ [][MCNext]_vars
 
